@@ -45,7 +45,7 @@ GenEmit == Done => PrintT(<<"EMIT", ToJson([tpi |-> TPI, hist |-> hist])>>)
 
 (* witness goals: NotGoal is checked as an invariant; the counterexample reaches the goal *)
 Reached ==
-  CASE Goal = "retry"      -> \E w \in Writers : pc[w] = "p21" /\ wFile[w] # NULL /\ ~handles[wFile[w]].open
+  CASE Goal = "retry"      -> retried \cap acked # {} /\ Idle
     [] Goal = "lost"       -> lost # {}
     [] Goal = "leak"       -> Idle /\ running /\ Cardinality(OpenHandles) > 2
     [] Goal = "backwards"  -> \E w \in Writers : pc[w] = "p6" /\ Ivl(wNow[w]) < marker
@@ -55,7 +55,7 @@ Reached ==
     [] Goal = "twofiles"   -> Cardinality(DOMAIN dir) >= 3 /\ Idle /\ nWrites = MaxWrites
     [] Goal = "restart"    -> restarts > 0 /\ Idle /\ nWrites = MaxWrites
     [] OTHER -> FALSE
-MidCallGoals == {"retry", "backwards", "contend"}      \* goals that are states in the middle of a call
+MidCallGoals == {"backwards", "contend"}      \* goals that are states in the middle of a call
 NotGoal == IF Goal \in MidCallGoals THEN ~Reached ELSE ~(Reached /\ Idle /\ Len(hist) > 0)
 WitnessEmit == (Goal # "" /\ ~NotGoal) => PrintT(<<"EMIT", ToJson([tpi |-> TPI, goal |-> Goal, hist |-> hist])>>)
 =============================================================================
